@@ -135,7 +135,10 @@ theorem sum_comm (n m : Nat) (a b s s' : Ty) (wa : wf a = true) (wb : wf b = tru
 
 /-- `TypeIntersection(a, b)` is contained in `a` and in `b` (well-formed operands) -/
 theorem inter_sub (a b c : Ty) (wa : wf a = true) (wb : wf b = true) (h : typeInter a b = some (some c)) :
-    c.is a = .is ∧ c.is b = .is := typeInter_sub wa wb h
+    c.is a = .is ∧ c.is b = .is := (typeInter_sub wa wb h).2
+/-- … and well formed -/
+theorem inter_wf (a b c : Ty) (wa : wf a = true) (wb : wf b = true) (h : typeInter a b = some (some c)) :
+    wf c = true := (typeInter_sub wa wb h).1
 theorem inter_sub_l (a b c : Ty) (wa : wf a = true) (wb : wf b = true) (h : typeInter a b = some (some c)) :
     c.is a = .is := (inter_sub a b c wa wb h).1
 theorem inter_sub_r (a b c : Ty) (wa : wf a = true) (wb : wf b = true) (h : typeInter a b = some (some c)) :
